@@ -12,6 +12,7 @@ const (
 	uIsReady  string = "isready"
 	uPosition string = "position"
 	uStartpos string = "startpos"
+	uFen      string = "fen"
 	uMoves    string = "moves"
 
 	uGo        string = "go"
@@ -389,7 +390,12 @@ func parsePosition(positionWithoutMoves string) {
 	if strings.HasPrefix(positionWithoutMoves, uStartpos) {
 		posGen = NewGenerator()
 	} else {
-		newPosGen, err := NewGeneratorFromFen(positionWithoutMoves)
+		// standard UCI form `position fen <fenstring>`; the bare `position <fenstring>` is accepted as well
+		fenString := positionWithoutMoves
+		if strings.HasPrefix(fenString, uFen+" ") {
+			fenString = strings.TrimSpace(strings.TrimPrefix(fenString, uFen))
+		}
+		newPosGen, err := NewGeneratorFromFen(fenString)
 		if err != nil {
 			fmt.Println("invalid FEN:", err)
 		} else {
